@@ -36,7 +36,7 @@ Section progress.
 
   (* something in the cluster will eventually produce an event *)
   Definition outstanding (s : sys) : Prop :=
-    pool s ≠ [] ∨ xfers s ≠ [] ∨ fetches s ≠ [] ∨ ∃ w s' cs, exec J E s (LFinish w) = Next (s', cs).
+    pool s ≠ [] ∨ xfers s ≠ [] ∨ fetches s ≠ [] ∨ ∃ w i s' cs, exec J E s (LPublish w i) = Next (s', cs).
 
   (* every publication of a completed task has been notified (holds when a task's
      publications reach the controller in the order they were made) *)
@@ -44,7 +44,7 @@ Section progress.
 
   Lemma all_completed rank s :
     wf_dag rank → Inv J E s → computable (ctl s) = ∅ → ongoing_total (ctl s) = ∅ →
-    (∀ t d, t ∈ finished s → d ∈ outs J t → d ∈ seen (ctl s)) →
+    (∀ d, d ∈ published s → d ∈ seen (ctl s)) →
     ∀ n t, (rank t < n)%nat → is_task J t → t ∈ completed (ctl s).
   Proof.
     intros [Hdag _] Hinv Hc Ho Hfs. induction n as [|n IH]; intros t Hr Ht; [lia|].
@@ -57,27 +57,61 @@ Section progress.
       rewrite Heq in Hd. apply elem_of_difference in Hd as [Hd Hns].
       destruct (Hdag _ _ Hd) as (Htp & Hout & Hrk). destruct d as [p i]. simpl in *.
       assert (p ∈ completed (ctl s)) as Hcp by (apply IH; [lia|done]).
-      destruct (i_completed _ _ _ Hinv _ Hcp) as [Hf _]. apply Hns. by apply (Hfs p).
+      destruct (i_completed _ _ _ Hinv _ Hcp) as [Hf _]. apply Hns. apply Hfs. by apply (i_fin_pub _ _ _ Hinv p).
     - assert (t ∈ ongoing_total (ctl s)) as Hin by (apply ongoing_total_spec; eauto). rewrite Ho in Hin. set_solver.
   Qed.
 
   Lemma nonempty_elem (X : gset task) : X ≠ ∅ → ∃ t, t ∈ X.
   Proof. intros Hne. destruct (set_choose_or_empty X) as [?|He]; [done|]. by apply leibniz_equiv in He. Qed.
 
-  Lemma ongoing_can_finish s w t :
+  (* least-number principle on N for a decidable predicate *)
+  Lemma least_below (P : N → Prop) `{∀ i, Decision (P i)} : ∀ n,
+    (∀ j, j < n → ¬ P j) ∨ (∃ i, i < n ∧ P i ∧ ∀ j, j < i → ¬ P j).
+  Proof.
+    induction n as [|n IH] using N.peano_ind; [left; intros j Hj; lia|].
+    destruct IH as [Hnone|(i & Hi & HPi & Hmin)].
+    - destruct (decide (P n)) as [HPn|HnPn].
+      + right. exists n. split; [lia|]. split; [done|]. exact Hnone.
+      + left. intros j Hj. destruct (decide (j = n)) as [->|?]; [done|]. apply Hnone. lia.
+    - right. exists i. split; [lia|]. done.
+  Qed.
+
+  Lemma least_N (P : N → Prop) `{∀ i, Decision (P i)} n : P n → ∃ i, i ≤ n ∧ P i ∧ ∀ j, j < i → ¬ P j.
+  Proof.
+    intros Hn. destruct (least_below P n) as [Hnone|(i & Hi & HPi & Hmin)].
+    - exists n. split; [lia|]. done.
+    - exists i. split; [lia|]. done.
+  Qed.
+
+  Lemma ongoing_can_publish s w t :
     Inv J E s → pool s = [] → xfers s = [] → t ∈ ong (ctl s) w →
-    ∃ s' cs, exec J E s (LFinish w) = Next (s', cs).
+    ∃ i s' cs, exec J E s (LPublish w i) = Next (s', cs).
   Proof.
     intros Hinv Hpool Hx Hw.
-    destruct (i_ong _ _ _ Hinv _ _ Hw) as (_ & _ & _ & _ & [Hwq|[_ Hp]]); [|rewrite Hpool in Hp; by apply elem_of_nil in Hp].
+    destruct (i_ong _ _ _ Hinv _ _ Hw) as (_ & _ & _ & Htask & [Hwq|[_ Hp]]); [|rewrite Hpool in Hp; by apply elem_of_nil in Hp].
     destruct (i_wq _ _ _ Hinv _ _ Hwq) as ([h Hh] & _ & _ & _).
-    pose proof (exec_inv J E wf_nout s (LFinish w) Hinv) as Hex. simpl in Hex. simpl.
-    rewrite Hwq, Hh in *.
+    pose proof (i_running _ _ _ Hinv _ _ Hwq) as Hlast.
+    (* the least unpublished output index of t *)
+    destruct (least_N (λ i, (t, i) ∉ published s) (nout J t - 1) Hlast) as (i & Hile & Hi & Hmin).
+    assert (Hlt : i < nout J t) by (pose proof (wf_nout t Htask); lia).
+    exists i.
+    pose proof (exec_inv J E wf_nout s (LPublish w i) Hinv) as Hex. unfold exec in Hex |- *. cbv beta iota in Hex |- *.
+    revert Hex. destruct (wq s !! w) as [t'|] eqn:Hwq'; [|congruence]. assert (t' = t) as -> by congruence.
+    destruct (e_host E !! w) as [h'|] eqn:Hh'; [|congruence]. assert (h' = h) as -> by congruence. intros Hex.
     assert (Hall : set_Forall (λ d, (h, d) ∈ store s) (ins J t)).
-    { intros d Hd. destruct (i_inputs _ _ _ Hinv _ _ _ Hwq Hh _ Hd) as [?|[src Hs]]; [done|].
+    { intros d Hd. destruct (i_inputs _ _ _ Hinv _ _ _ Hwq' Hh' _ Hd) as [?|[src Hs]]; [done|].
       rewrite Hx in Hs. by apply elem_of_nil in Hs. }
-    rewrite bool_decide_eq_true_2 in * by done. simpl in *.
-    case_bool_decide; simpl in *; [eauto|done].
+    rewrite (bool_decide_eq_true_2 _ Hall) in Hex. rewrite (bool_decide_eq_true_2 _ Hall). simpl in *.
+    assert (Hc : bool_decide ((t, i) ∈ outs J t) && bool_decide ((t, i) ∉ published s)
+                 && bool_decide (set_Forall (λ d' : ds, d'.2 < i → d' ∈ published s) (outs J t)) = true).
+    { apply andb_true_intro. split; [apply andb_true_intro; split|]; apply bool_decide_eq_true.
+      - by apply outs_spec.
+      - done.
+      - intros d' Hd' Hlt'. apply outs_spec in Hd' as [Hd1 _]. destruct d' as [a b]. simpl in *. subst a.
+        destruct (decide ((t, b) ∈ published s)) as [?|Hn]; [done|]. exfalso. by apply (Hmin b). }
+    match type of Hex with context [if negb ?b then _ else _] => assert (b = true) as Hb by exact Hc; rewrite Hb in Hex end.
+    match goal with |- context [if negb ?b then _ else _] => assert (b = true) as Hb' by exact Hc; rewrite Hb' end.
+    simpl in *. match goal with |- context [if ?b then Fail _ else _] => destruct b eqn:Hst end; simpl in *; [done|eauto].
   Qed.
 
   (* ---- deadlock freedom: whenever the controller waits, something is outstanding ---- *)
@@ -97,13 +131,13 @@ Section progress.
       destruct Haw as (d & Hd & Hv).
       assert (Hc : computable (ctl s) = ∅).
       { destruct (decide (computable (ctl s) = ∅)) as [?|Hne]; [done|]. by specialize (Hap Hne). }
-      assert (Hfs : ∀ t d', t ∈ finished s → d' ∈ outs J t → d' ∈ seen (ctl s)).
-      { intros t d' Ht Hd'. destruct (i_fin_ev _ _ _ Hinv _ _ Ht Hd') as [?|Hp]; [done|].
+      assert (Hfs : ∀ d', d' ∈ published s → d' ∈ seen (ctl s)).
+      { intros d' Hd'. destruct (i_pub_ev _ _ _ Hinv _ Hd') as [?|Hp]; [done|].
         rewrite Hpool in Hp. by apply elem_of_nil in Hp. }
       destruct (proj2 Hdag _ Hd) as [Htask Hout].
       pose proof (all_completed rank s Hdag Hinv Hc Hot Hfs (S (rank d.1)) d.1 ltac:(lia) Htask) as Hcomp.
       destruct (i_completed _ _ _ Hinv _ Hcomp) as [Hfin _].
-      pose proof (Hfs _ _ Hfin Hout) as Hseen.
+      pose proof (Hfs _ (i_fin_pub _ _ _ Hinv _ Hfin _ Hout)) as Hseen.
       destruct (i_seen_ext _ _ _ Hinv _ Hseen Hd) as [Hfe|[h Hq]]; [|rewrite Hfq in Hq; by rewrite lookup_empty in Hq].
       destruct (i_fetched _ _ _ Hinv _ Hfe) as [Hin|[Hin|[v Ho]]].
       + rewrite Hf in Hin. by apply elem_of_nil in Hin.
@@ -111,7 +145,7 @@ Section progress.
       + destruct (i_out _ _ _ Hinv _ _ Ho) as (_ & _ & _ & _ & ->). unfold has_value in Hv. rewrite Ho in Hv.
         unfold payload_of in Hv. rewrite bool_decide_eq_false_2 in Hv by auto. done.
     - apply nonempty_elem in Hot as [t Ht]. apply ongoing_total_spec in Ht as [w Hw].
-      exists w. by apply (ongoing_can_finish s w t).
+      exists w. by apply (ongoing_can_publish s w t).
   Qed.
 
   (* ---- completeness at exit (publications of a task delivered in order) ---- *)
